@@ -97,6 +97,7 @@ Record mq := {
   g_acked : list Z;          (* acknowledged ids *)
   g_dropped : list Z;        (* rejected for good with no DLQ configured *)
   g_dlqlost : list Z;        (* pushed out of a full DLQ *)
+  g_reproc : list Z;         (* taken out of the DLQ by reprocess_all (the queue ignores the republish event) *)
   g_first : list Z;          (* ids in the order of their first delivery *)
 }.
 
@@ -104,7 +105,7 @@ Definition mq_init : mq := {|
   q_obj := fun _ => msg0; q_next := 0; q_msgs := []; q_pending := []; q_inflight := [];
   q_cons := []; q_cidx := 0; q_resched := []; q_susp := []; q_dead := [];
   n_pub := 0; n_dlv := 0; n_ack := 0; n_rej := 0; n_redlv := 0; n_dead := 0; n_dlqdisc := 0;
-  g_acked := []; g_dropped := []; g_dlqlost := []; g_first := [];
+  g_acked := []; g_dropped := []; g_dlqlost := []; g_reproc := []; g_first := [];
 |}.
 
 Inductive op :=
@@ -116,7 +117,8 @@ Inductive op :=
 | DeliverEnd (h now : Z)
 | Ack (mid : Z)
 | Reject (mid : Z) (requeue : bool)
-| Sched (mid now : Z).
+| Sched (mid now : Z)
+| DlqReprocessAll.             (* DeadLetterQueue.reprocess_all(queue): republish events the queue ignores *)
 
 Inductive out :=
 | OPublished (mid : Z)
@@ -132,7 +134,7 @@ Definition set_core (s : mq) obj msgs pending inflight resched : mq :=
      q_cons := q_cons s; q_cidx := q_cidx s; q_resched := resched; q_susp := q_susp s; q_dead := q_dead s;
      n_pub := n_pub s; n_dlv := n_dlv s; n_ack := n_ack s; n_rej := n_rej s; n_redlv := n_redlv s;
      n_dead := n_dead s; n_dlqdisc := n_dlqdisc s;
-     g_acked := g_acked s; g_dropped := g_dropped s; g_dlqlost := g_dlqlost s; g_first := g_first s |}.
+     g_acked := g_acked s; g_dropped := g_dropped s; g_dlqlost := g_dlqlost s; g_reproc := g_reproc s; g_first := g_first s |}.
 
 (** DeadLetterQueue.add_message (retention_period = None). *)
 Definition dlq_full (cfg : mqcfg) (dead : list Z) : bool :=
@@ -150,7 +152,7 @@ Definition do_ack (s : mq) (mid : Z) : mq :=
      q_susp := q_susp s1; q_dead := q_dead s1;
      n_pub := n_pub s1; n_dlv := n_dlv s1; n_ack := n_ack s1 + 1; n_rej := n_rej s1; n_redlv := n_redlv s1;
      n_dead := n_dead s1; n_dlqdisc := n_dlqdisc s1;
-     g_acked := mid :: g_acked s1; g_dropped := g_dropped s1; g_dlqlost := g_dlqlost s1; g_first := g_first s1 |}.
+     g_acked := mid :: g_acked s1; g_dropped := g_dropped s1; g_dlqlost := g_dlqlost s1; g_reproc := g_reproc s1; g_first := g_first s1 |}.
 
 (** MessageQueue.reject *)
 Definition do_reject (cfg : mqcfg) (s : mq) (mid : Z) (requeue : bool) : mq :=
@@ -166,7 +168,7 @@ Definition do_reject (cfg : mqcfg) (s : mq) (mid : Z) (requeue : bool) : mq :=
        q_susp := q_susp s1; q_dead := q_dead s1;
        n_pub := n_pub s1; n_dlv := n_dlv s1; n_ack := n_ack s1; n_rej := n_rej s1 + 1; n_redlv := n_redlv s1;
        n_dead := n_dead s1; n_dlqdisc := n_dlqdisc s1;
-       g_acked := g_acked s1; g_dropped := g_dropped s1; g_dlqlost := g_dlqlost s1; g_first := g_first s1 |}
+       g_acked := g_acked s1; g_dropped := g_dropped s1; g_dlqlost := g_dlqlost s1; g_reproc := g_reproc s1; g_first := g_first s1 |}
   else
     let s1 := set_core s (upd (q_obj s) mid {| m_count := m_count o; m_state := 3; m_cons := m_cons o |})
                 (remall mid (q_msgs s)) pending inflight (remall mid (q_resched s)) in
@@ -179,14 +181,14 @@ Definition do_reject (cfg : mqcfg) (s : mq) (mid : Z) (requeue : bool) : mq :=
          n_pub := n_pub s1; n_dlv := n_dlv s1; n_ack := n_ack s1; n_rej := n_rej s1 + 1; n_redlv := n_redlv s1;
          n_dead := n_dead s1 + 1; n_dlqdisc := n_dlqdisc s1 + (if evict then 1 else 0);
          g_acked := g_acked s1; g_dropped := g_dropped s1;
-         g_dlqlost := (if evict then firstn 1 (q_dead s) else []) ++ g_dlqlost s1; g_first := g_first s1 |}
+         g_dlqlost := (if evict then firstn 1 (q_dead s) else []) ++ g_dlqlost s1; g_reproc := g_reproc s1; g_first := g_first s1 |}
     else
       {| q_obj := q_obj s1; q_next := q_next s1; q_msgs := q_msgs s1; q_pending := q_pending s1;
          q_inflight := q_inflight s1; q_cons := q_cons s1; q_cidx := q_cidx s1; q_resched := q_resched s1;
          q_susp := q_susp s1; q_dead := q_dead s1;
          n_pub := n_pub s1; n_dlv := n_dlv s1; n_ack := n_ack s1; n_rej := n_rej s1 + 1; n_redlv := n_redlv s1;
          n_dead := n_dead s1; n_dlqdisc := n_dlqdisc s1;
-         g_acked := g_acked s1; g_dropped := mid :: g_dropped s1; g_dlqlost := g_dlqlost s1; g_first := g_first s1 |}.
+         g_acked := g_acked s1; g_dropped := mid :: g_dropped s1; g_dlqlost := g_dlqlost s1; g_reproc := g_reproc s1; g_first := g_first s1 |}.
 
 (** Pre-yield half of MessageQueue._deliver_message, run by generator [h]. *)
 Definition deliver_begin (s : mq) (h mid : Z) : mq * list out :=
@@ -207,7 +209,7 @@ Definition deliver_begin (s : mq) (h mid : Z) : mq * list out :=
         n_ack := n_ack s; n_rej := n_rej s;
         n_redlv := if 1 <? k then n_redlv s + 1 else n_redlv s;
         n_dead := n_dead s; n_dlqdisc := n_dlqdisc s;
-        g_acked := g_acked s; g_dropped := g_dropped s; g_dlqlost := g_dlqlost s;
+        g_acked := g_acked s; g_dropped := g_dropped s; g_dlqlost := g_dlqlost s; g_reproc := g_reproc s;
         g_first := if 1 <? k then g_first s else g_first s ++ [mid] |}, [OSuspend])
   end.
 
@@ -217,7 +219,7 @@ Definition set_susp (s : mq) susp : mq :=
      q_susp := susp; q_dead := q_dead s;
      n_pub := n_pub s; n_dlv := n_dlv s; n_ack := n_ack s; n_rej := n_rej s; n_redlv := n_redlv s;
      n_dead := n_dead s; n_dlqdisc := n_dlqdisc s;
-     g_acked := g_acked s; g_dropped := g_dropped s; g_dlqlost := g_dlqlost s; g_first := g_first s |}.
+     g_acked := g_acked s; g_dropped := g_dropped s; g_dlqlost := g_dlqlost s; g_reproc := g_reproc s; g_first := g_first s |}.
 
 Definition set_cons (s : mq) (cs : list Z) : mq :=
   {| q_obj := q_obj s; q_next := q_next s; q_msgs := q_msgs s; q_pending := q_pending s;
@@ -225,7 +227,7 @@ Definition set_cons (s : mq) (cs : list Z) : mq :=
      q_susp := q_susp s; q_dead := q_dead s;
      n_pub := n_pub s; n_dlv := n_dlv s; n_ack := n_ack s; n_rej := n_rej s; n_redlv := n_redlv s;
      n_dead := n_dead s; n_dlqdisc := n_dlqdisc s;
-     g_acked := g_acked s; g_dropped := g_dropped s; g_dlqlost := g_dlqlost s; g_first := g_first s |}.
+     g_acked := g_acked s; g_dropped := g_dropped s; g_dlqlost := g_dlqlost s; g_reproc := g_reproc s; g_first := g_first s |}.
 
 Definition mq_full (cfg : mqcfg) (s : mq) : bool :=
   match c_cap cfg with None => false | Some c => c <=? zlen (q_msgs s) end.
@@ -243,7 +245,7 @@ Definition step (cfg : mqcfg) (s : mq) (o : op) : mq * list out :=
           q_dead := q_dead s;
           n_pub := n_pub s + 1; n_dlv := n_dlv s; n_ack := n_ack s; n_rej := n_rej s; n_redlv := n_redlv s;
           n_dead := n_dead s; n_dlqdisc := n_dlqdisc s;
-          g_acked := g_acked s; g_dropped := g_dropped s; g_dlqlost := g_dlqlost s; g_first := g_first s |},
+          g_acked := g_acked s; g_dropped := g_dropped s; g_dlqlost := g_dlqlost s; g_reproc := g_reproc s; g_first := g_first s |},
        [OPublished id])
   | PollBegin h =>
       match q_pending s, q_cons s with
@@ -271,6 +273,14 @@ Definition step (cfg : mqcfg) (s : mq) (o : op) : mq * list out :=
       (set_core s (upd (q_obj s) mid {| m_count := m_count o; m_state := 0; m_cons := m_cons o |})
          (q_msgs s) (mid :: q_pending s) (remall mid (q_inflight s)) (addkey mid (q_resched s)),
        [ORedelivery mid (now + c_delay cfg)])
+  | DlqReprocessAll =>
+      ({| q_obj := q_obj s; q_next := q_next s; q_msgs := q_msgs s; q_pending := q_pending s;
+          q_inflight := q_inflight s; q_cons := q_cons s; q_cidx := q_cidx s; q_resched := q_resched s;
+          q_susp := q_susp s; q_dead := [];
+          n_pub := n_pub s; n_dlv := n_dlv s; n_ack := n_ack s; n_rej := n_rej s; n_redlv := n_redlv s;
+          n_dead := n_dead s; n_dlqdisc := n_dlqdisc s;
+          g_acked := g_acked s; g_dropped := g_dropped s; g_dlqlost := g_dlqlost s;
+          g_reproc := q_dead s ++ g_reproc s; g_first := g_first s |}, [])
   end.
 
 Fixpoint run_from (cfg : mqcfg) (s : mq) (ops : list op) : mq * list (list out) :=
